@@ -129,6 +129,7 @@ def worker_main(argv):
                 break
         else:
             agg["exhausted"] = True
+        agg["last_layer"] = case.get("layer") if idx >= 0 and isinstance(case, dict) else None
         # determinism spot check: same case, same process, same digest
         if agg["violation"] is None:
             for case, dig, ok in recheck[:4]:
@@ -388,6 +389,7 @@ def _write_evidence(pid, tier, seed, mod, cfg, aggs, confirmed, known_hits, erro
         "determinism_rechecks": sum(a.get("rechecked", 0) for a in aggs),
         "determinism_mismatches": sum(len(a.get("nondet", [])) for a in aggs),
         "workers": cfg["workers"],
+        "workers_last_layer": sorted(str(a.get("last_layer")) for a in aggs),
         "budget_s": cfg["budget"],
         "warmup_s": round(max([a.get("warm_s", 0) for a in aggs] or [0]), 1),
         "components": getattr(mod, "COMPONENTS", {}),
